@@ -40,6 +40,35 @@ theorem c16_reg_validate_sound (p : RegParams) (h : p.validate = true) : RegSpec
 theorem c16_str_validate_sound (fee : Int) (h : streamParamsValid fee = true) : StrSpec fee := by
   simpa [streamParamsValid, StrSpec] using h
 
+/-- **the rules and nothing but the rules**: for a denomination that is not blank (the extra test the code makes first),
+`Validate` accepts a WRKChain/BEACON parameter set exactly when it satisfies the validity rules the property lists — so the
+soundness theorems above are not about a checker that merely rejects more -/
+theorem c16_reg_validate_exact (p : RegParams) (hb : isBlank p.denom = false) : p.validate = true ↔ RegSpec p := by
+  constructor
+  · exact c16_reg_validate_sound p
+  · intro ⟨hd, h1, h2, h3, h4, h5, h6⟩
+    simp only [RegParams.validate, hb, hd, Bool.not_false, Bool.true_and, Bool.and_eq_true, decide_eq_true_eq]
+    refine ⟨⟨⟨⟨⟨?_, ?_⟩, ?_⟩, ?_⟩, ?_⟩, h6⟩ <;> omega
+
+theorem c16_str_validate_exact (fee : Int) : streamParamsValid fee = true ↔ StrSpec fee := by
+  simp [streamParamsValid, StrSpec]
+
+theorem c16_ent_validate_exact (p : EntParams) (hb : isBlank p.denom = false) : p.validate = true ↔ EntSpec p := by
+  constructor
+  · exact c16_ent_validate_sound p
+  · intro ⟨hd, hm, hl, hall, hlen, hne⟩
+    simp only [EntParams.validate, hb, hd, Bool.not_false, Bool.true_and, Bool.and_eq_true, decide_eq_true_eq,
+      Bool.not_eq_true', decide_eq_false_iff_not, List.all_eq_true, Nat.not_lt]
+    refine ⟨⟨⟨⟨?_, ?_⟩, ?_⟩, ?_⟩, hlen⟩
+    · omega
+    · omega
+    · intro he
+      obtain ⟨a, ha⟩ := hall AddrTok.empty (by rw [he]; simp)
+      simp [AddrTok.decode] at ha
+    · intro t ht
+      obtain ⟨a, ha⟩ := hall t ht
+      simp [ha]
+
 /-- The stored parameters of the enterprise, WRKChain, BEACON and stream modules satisfy their
 validity rules in every state of every run (any history of transactions, nested messages,
 governance proposals and block hooks).  (`GenGrantsOK`: the genesis document contains no authz grant given by a module
